@@ -230,6 +230,20 @@ func findFunctionCalls(expr string) [][]int {
 }
 
 // generatePlaceholder 为函数调用生成唯一占位符
+// plainFieldRefRegex matches a plain field reference: a name followed by .name,
+// [index] or ['key'] steps, or a backtick-quoted identifier
+var plainFieldRefRegex = regexp.MustCompile("^(`[^`]*`|[A-Za-z_][A-Za-z0-9_]*)(\\.[A-Za-z_][A-Za-z0-9_]*|\\[-?[0-9]+\\]|\\['[^']*'\\]|\\[\"[^\"]*\"\\])*$")
+
+// isArithmeticInput reports whether an aggregate's input is an arithmetic
+// expression (v*2, a+b) that has to be evaluated per row before aggregation
+func isArithmeticInput(input string) bool {
+	input = strings.TrimSpace(input)
+	if input == "" || input == "*" || plainFieldRefRegex.MatchString(input) {
+		return false
+	}
+	return strings.ContainsAny(input, "+-*/%")
+}
+
 func generatePlaceholder(funcName, fullFuncCall string) string {
 	// The hex form of the call text: distinct calls never share a placeholder
 	return PlaceholderPrefix + funcName + "_" + hex.EncodeToString([]byte(fullFuncCall)) + PlaceholderSuffix
@@ -436,8 +450,10 @@ func (ega *EnhancedGroupAggregator) AddPostAggregationExpression(outputField, or
 			}
 		}
 
-		// Check if input field is an expression (contains function calls)
-		isInputExpression := strings.Contains(field.InputField, "(") && strings.Contains(field.InputField, ")")
+		// Check if input field is an expression: it contains function calls, or it is
+		// arithmetic over columns (sum(v*2)) rather than a plain field reference
+		isInputExpression := (strings.Contains(field.InputField, "(") && strings.Contains(field.InputField, ")")) ||
+			isArithmeticInput(field.InputField)
 
 		// If input expression itself contains aggregation calls, skip creating an aggregator for this field
 		// Use dynamic function registry instead of hardcoded list
